@@ -465,6 +465,15 @@ def stepCore (e : Env) (line : String) : Env × String :=
       let hx ← lookup e x
       let (_, e) ← runM e (modify fun w => { w with pepMetrics := w.pepMetrics ++ [hx] })
       pure (e, "ok")
+    | "pep.setmetrics" :: xs =>
+      -- `problem.list_of_performance_metrics = [...]`: the list is replaced
+      let hs ← xs.mapM (lookup e)
+      let (_, e) ← runM e (modify fun w => { w with pepMetrics := hs })
+      pure (e, "ok")
+    | ["fn.setname", f, nm] =>
+      let hf ← lookup e f
+      let (_, e) ← runM e (do let fr ← getF hf; setF hf { fr with name := some nm })
+      pure (e, "ok")
     | "pep.psd" :: ns :: cells =>
       let some n := ns.toNat? | throw "bad n"
       let rows ← readMatrix e n cells
